@@ -264,7 +264,8 @@ ly_getutf8(const char **input, uint32_t *utf8_char, size_t *bytes_read)
             c = (c << 6) | (aux & 0x3f);
         }
 
-        if ((c < 0x800) || ((c > 0xd7ff) && (c < 0xe000)) || (c > 0xfffd)) {
+        if ((c < 0x800) || ((c > 0xd7ff) && (c < 0xe000)) || ((c >= 0xfdd0) && (c <= 0xfdef)) || (c > 0xfffd)) {
+            /* overlong encoding, surrogates, or noncharacters */
             goto error;
         }
     } else if ((c & 0xf8) == 0xf0) {
@@ -281,7 +282,8 @@ ly_getutf8(const char **input, uint32_t *utf8_char, size_t *bytes_read)
             c = (c << 6) | (aux & 0x3f);
         }
 
-        if ((c < 0x10000) || (c > 0x10ffff)) {
+        if ((c < 0x10000) || (c > 0x10ffff) || ((c & 0xfffe) == 0xfffe)) {
+            /* overlong encoding, too large value, or noncharacters %xnFFFE-nFFFF */
             goto error;
         }
     } else {
@@ -431,6 +433,12 @@ ly_checkutf8(const char *input, size_t in_len, size_t *utf8_len)
             return LY_EINVAL;
         }
 
+        /* (input >= 0xEFB790) && (input <= 0xEFB7AF) */
+        if (!ly_utf8_less(input, 3, 0xEF, 0xB7, 0x90) && !ly_utf8_greater(input, 3, 0xEF, 0xB7, 0xAF)) {
+            /* reject noncharacters %xFDD0-FDEF */
+            return LY_EINVAL;
+        }
+
         /* (input < 0xE0A080) || (input > 0xEFBFBD) || ((input & 0xF0C0C0) != 0xE08080) */
         if (ly_utf8_less(input, 3, 0xE0, 0xA0, 0x80) || ly_utf8_greater(input, 3, 0xEF, 0xBF, 0xBD) ||
                 !ly_utf8_and_equal(input, 3, 0xF0, 0xE0, 0xC0, 0x80, 0xC0, 0x80)) {
@@ -443,6 +451,12 @@ ly_checkutf8(const char *input, size_t in_len, size_t *utf8_len)
         /* (input < 0xF0908080) || (input > 0xF48FBFBF) || ((input & 0xF8C0C0C0) != 0xF0808080) */
         if (ly_utf8_less(input, 4, 0xF0, 0x90, 0x80, 0x80) || ly_utf8_greater(input, 4, 0xF4, 0x8F, 0xBF, 0xBF) ||
                 !ly_utf8_and_equal(input, 4, 0xF8, 0xF0, 0xC0, 0x80, 0xC0, 0x80, 0xC0, 0x80)) {
+            return LY_EINVAL;
+        }
+
+        /* (input & 0x000FFFFE) == 0x000FBFBE */
+        if (ly_utf8_and_equal(input, 4, 0x00, 0x00, 0x0F, 0x0F, 0xFF, 0xBF, 0xFE, 0xBE)) {
+            /* reject noncharacters %xnFFFE-nFFFF of planes 1-16 */
             return LY_EINVAL;
         }
     } else {
